@@ -85,7 +85,7 @@ COMMON_ASSUMPTIONS = [
 
 PROPS = {
     "C01": {
-        "mc": DEC_MODELS + ["len_tlc", "len_base", "len_step", "len_progress"], "gen": ["decode", "avps", "payload", "decode_big", "many_avps", "avp_lengths"],
+        "mc": DEC_MODELS + ["len_tlc", "len_base", "len_step", "len_progress"], "gen": ["decode", "avps", "payload", "decode_big", "many_avps", "avp_lengths", "octet_sweep"],
         "rule": "TLC-explored boundary grammars of the decoder machine (every run exported and replayed) + seeded "
                 "random / mutated / raw inputs through both entry points, the bare AVP list reader and the per-type "
                 "readers, in a dev build (overflow checks, debug assertions) and a release build, under catch_unwind "
@@ -102,7 +102,7 @@ PROPS = {
                                              "reveal() builds its own SliceReader, so only its requests' bounds (C13) apply there"],
     },
     "C03": {
-        "mc": ["enc_avps", "enc_msgs", "enc_sizes", "enc_huge"], "gen": ["roundtrip_ctl", "many_avps", "small_values", "avp_lengths"],
+        "mc": ["enc_avps", "enc_msgs", "enc_sizes", "enc_huge"], "gen": ["roundtrip_ctl", "many_avps", "small_values", "avp_lengths", "kind_pairs"],
         "rule": "value catalogue explored by TLC on the Encoder machine with the specification's decoder applied to the "
                 "result (RoundTrip invariant), each behaviour replayed; seeded random control messages (0..12 AVPs) and "
                 "AVPs of all 40 variants with boundary sizes of the variable parts, up to 65 535-octet messages",
@@ -115,20 +115,20 @@ PROPS = {
         "assumptions": COMMON_ASSUMPTIONS,
     },
     "C05": {
-        "mc": DEC_MODELS + ["dec_flagsq"], "gen": ["decode", "avps", "payload", "flags", "ignored", "decode_big", "many_avps", "small_values", "bits", "avp_lengths"],
+        "mc": DEC_MODELS + ["dec_flagsq"], "gen": ["decode", "avps", "payload", "flags", "ignored", "decode_big", "many_avps", "small_values", "bits", "avp_lengths", "kind_pairs", "octet_sweep"],
         "rule": "every decode outcome (verdict, value field for field, per-record results) compared with the TLA+ "
                 "decoder's result for the same octets: TLC boundary grammars, flag words under all option sets, seeded "
                 "random / mutated / raw inputs, and pairs differing only in octets the specification ignores",
         "assumptions": COMMON_ASSUMPTIONS,
     },
     "C06": {
-        "mc": ENC_MODELS, "gen": ["encode", "encode_seq", "bitmask", "small_values", "many_avps", "avp_lengths"],
+        "mc": ENC_MODELS, "gen": ["encode", "encode_seq", "bitmask", "small_values", "many_avps", "avp_lengths", "kind_pairs"],
         "rule": "octets emitted for the TLC value catalogue and for seeded random values (all AVP variants, control and "
                 "data messages, in and out of the round-trip domain) compared octet for octet with the TLA+ encoder",
         "assumptions": COMMON_ASSUMPTIONS,
     },
     "C07": {
-        "mc": ["enc_sizes", "enc_avps", "enc_huge", "enclen_tlc", "enclen_base", "enclen_step"], "gen": ["encode", "encode_seq", "small_values", "avp_lengths"],
+        "mc": ["enc_sizes", "enc_avps", "enc_huge", "enclen_tlc", "enclen_base", "enclen_step"], "gen": ["encode", "encode_seq", "small_values", "avp_lengths", "kind_pairs"],
         "rule": "size boundaries of the 10-bit AVP length (values of 1015..1019, 2000 octets) and of the 16-bit message "
                 "length (65 534..65 536 octets), plus seeded random values; panic iff the specification's encoder refuses; "
                 "an independent walk over the emitted length fields; get_length against the emitted size",
@@ -136,21 +136,21 @@ PROPS = {
     },
     "C08": {
         "mc": ["dec_framing", "dec_ctllen", "dec_data", "dec_loop3", "dec_loop4", "session_q", "session_t"],
-        "gen": ["decode_seq", "suffix", "concat", "decode", "decode_big", "ignored", "many_avps", "avp_lengths"],
+        "gen": ["decode_seq", "suffix", "concat", "decode", "decode_big", "ignored", "many_avps", "avp_lengths", "kind_pairs"],
         "rule": "remaining length after every accepted decode; 1..4 messages back to back in one reader; (b, b++suffix) "
                 "pairs; AVP record concatenations against the records alone; TLC: SuffixIndependent on every accepted run, "
                 "BackToBack / AtBoundary on the session machine",
         "assumptions": COMMON_ASSUMPTIONS,
     },
     "C09": {
-        "mc": ["enc_avps", "enc_msgs", "enc_sizes", "session_q", "session_t", "enclen_tlc", "enclen_base", "enclen_step"], "gen": ["encode", "encode_seq", "many_avps", "avp_lengths"],
+        "mc": ["enc_avps", "enc_msgs", "enc_sizes", "session_q", "session_t", "enclen_tlc", "enclen_base", "enclen_step"], "gen": ["encode", "encode_seq", "many_avps", "avp_lengths", "kind_pairs"],
         "rule": "encodes into writers pre-filled with 0..300 octets (VecWriter and a monitoring writer that logs every "
                 "append and positional overwrite), sequences of 1..5 values into one writer; TLC: OnlyAppend / "
                 "PatchInsideFrame / AppendOrPatch on the Encoder machine, WriterIsConcat on the session machine",
         "assumptions": COMMON_ASSUMPTIONS,
     },
     "C10": {
-        "mc": ["dec_framing", "dec_avprec", "dec_kinds", "dec_data", "dec_loop3", "dec_loop4"], "gen": ["chain", "many_avps", "small_values", "avp_lengths"],
+        "mc": ["dec_framing", "dec_avprec", "dec_kinds", "dec_data", "dec_loop3", "dec_loop4"], "gen": ["chain", "many_avps", "small_values", "avp_lengths", "kind_pairs", "octet_sweep"],
         "rule": "decode -> encode -> strict decode -> encode chains from non-canonical accepted inputs (reserved bits, P/O "
                 "and version under lax options, unset M bit, reserved AVP bits, surplus payload, trailing octets) under "
                 "all option sets; TLC: Normalises on every accepted run of the decoder grammars",
@@ -186,7 +186,7 @@ PROPS = {
         "exhaustive_thorough": True,
     },
     "C15": {
-        "mc": ["dec_loop3", "dec_loop4", "dec_avprec", "dec_ctllen"], "gen": ["ctl_records", "many_avps"],
+        "mc": ["dec_loop3", "dec_loop4", "dec_avprec", "dec_ctllen"], "gen": ["ctl_records", "many_avps", "kind_pairs"],
         "rule": "all sequences of up to 3 (thorough: 4) records from 8 classes (valid Message Type, other valid, "
                 "undecodable, unknown type, vendor, hidden, length < 6, overrun) explored by TLC and replayed; random "
                 "assemblies of up to 12 good / bad records; error count and order, all-or-nothing",
